@@ -12,7 +12,9 @@ use refnoise::{patterns, state::overheads, CipherAlg, DhAlg, HashAlg, Proto};
 use serde_json::json;
 
 // C14 does not demand that a fitting call succeeds (that is C02): ExpectedOkGotErr is not judged here
-const CATS: [Cat; 5] = [Cat::OutLen, Cat::Overrun, Cat::ExpectedErrGotOk, Cat::OutBytes, Cat::Panic];
+// nor does the property say anything about the part of the caller's buffer beyond the returned length (scratch use of
+// spare room is legitimate): Cat::Overrun is not judged
+const CATS: [Cat; 4] = [Cat::OutLen, Cat::ExpectedErrGotOk, Cat::OutBytes, Cat::Panic];
 
 /// probe ops for handshake message k (after an honest prefix of k messages)
 fn probes(proto: &Proto, k: usize, thorough: bool) -> Vec<(Vec<Op>, &'static str)> {
@@ -117,7 +119,7 @@ pub fn judge(e: &crate::exec::Exec, first_probe: usize) -> Vec<(String, String)>
 pub fn run(tier: Tier) -> i32 {
     let ctx = Ctx::new("C14", tier, "model_checking");
     let thorough = !ctx.quick();
-    ctx.set_rule("case = (handshake name, message index, payload length in {0,1,2,15..17,255,max-2..max+2,65535,65536}, output buffer in {pred-1,pred,pred+1,pred+15..17,65535,65551,70000,0,1}) for writes; genuine message with exact / roomy payload buffer, every truncation length, 65535/65536/66000-byte inputs for reads; the same for stateful and stateless transport. Oracle: returned length == pred (reference field map), <= 65535, <= buffer, canary beyond it intact, Err(Input) when it cannot fit; reads of too short / too long messages fail; successful read returns len - overhead. non-trivial = probe executed after an honest prefix that succeeded");
+    ctx.set_rule("case = (handshake name, message index, payload length in {0,1,2,15..17,255,max-2..max+2,65535,65536}, output buffer in {pred-1,pred,pred+1,pred+15..17,65535,65551,70000,0,1}) for writes; genuine message with exact / roomy payload buffer, every truncation length, 65535/65536/66000-byte inputs for reads; the same for stateful and stateless transport. Oracle: returned length == pred (reference field map), <= 65535, <= buffer, Err(Input) when it cannot fit; reads of too short / too long messages fail; successful read returns len - overhead. non-trivial = probe executed after an honest prefix that succeeded");
     let mut names: Vec<Proto> = patterns::all_protos_for_suite(DhAlg::X25519, CipherAlg::ChaChaPoly, HashAlg::Sha256);
     for b in patterns::base_patterns() {
         names.push(Proto::new(&b, &[], DhAlg::P256, CipherAlg::AesGcm, HashAlg::Sha512).unwrap());
